@@ -135,8 +135,25 @@ impl Built {
     }
 }
 
+thread_local! {
+    pub static QUIET: std::cell::Cell<u32> = const { std::cell::Cell::new(0) };
+}
+
+/// Panics of the implementation under test (inside `quietly`) are data; any other panic is a bug of
+/// the harness and is printed.
 pub fn silence_panics() {
-    std::panic::set_hook(Box::new(|_| {}));
+    std::panic::set_hook(Box::new(|info| {
+        if QUIET.with(|q| q.get()) == 0 {
+            eprintln!("harness panic: {}", info);
+        }
+    }));
+}
+
+pub fn quietly<R>(f: impl FnOnce() -> R) -> std::thread::Result<R> {
+    QUIET.with(|q| q.set(q.get() + 1));
+    let r = catch_unwind(AssertUnwindSafe(f));
+    QUIET.with(|q| q.set(q.get() - 1));
+    r
 }
 
 pub fn panic_msg(e: Box<dyn std::any::Any + Send>) -> String {
@@ -151,10 +168,10 @@ pub fn panic_msg(e: Box<dyn std::any::Any + Send>) -> String {
 
 /// `build()` of the real library with the configuration set directly (hook), no setters involved.
 pub fn build_impl(case: &Case) -> Built {
-    let r = catch_unwind(AssertUnwindSafe(|| {
+    let r = quietly(|| {
         let mut b = grex::verif_hooks::builder_with(&case.tcs, case.cfg.bits, case.cfg.min_rep, case.cfg.min_len);
         b.build()
-    }));
+    });
     match r {
         Ok(s) => Built::Ok(s),
         Err(e) => Built::Panic(panic_msg(e)),
@@ -163,11 +180,11 @@ pub fn build_impl(case: &Case) -> Built {
 
 /// `build()` through the public setters only.
 pub fn build_public(case: &Case) -> Built {
-    let r = catch_unwind(AssertUnwindSafe(|| {
+    let r = quietly(|| {
         let mut b = grex::RegExpBuilder::from(&case.tcs);
         apply_setters(&mut b, case.cfg);
         b.build()
-    }));
+    });
     match r {
         Ok(s) => Built::Ok(s),
         Err(e) => Built::Panic(panic_msg(e)),
